@@ -12,454 +12,348 @@ Definition show_fres (r : fres) : string :=
   end.
 Definition check (rs : list rune) : string := digest (show_fres (format_res rs)).
 Definition full (rs : list rune) : string := show_fres (format_res rs).
-Eval vm_compute in ("<<<M1469>>>" ++ check (runes_of_ascii "options {
-    MetaDataX = true
-}
-
-root packet u8x {
-    repeat uint16 u8x `" ++ [28040; 24687; 31867; 22411]%N ++ runes_of_ascii "`,
-    @tag(42)
-    char[7] trueish @lengthOf(Pad),
-    tag @lengthOf(A) `say ""hi""`,
-    float rootA,// " ++ [27880; 37322]%N ++ runes_of_ascii "
-    Foo,
-    repeat uint32 calculatedFrom,
-}
-
-root packet u128 {
-    repeat Packet metadata,
-    repeat zchar[0123456789] len `u8 x,`,
-    f32 BodyLength @lengthOf(Z9_) `it's`,
-    match crc as Packet {
-        0 : i64_,
-        [255] : rootA,
-        [
-            ""a	b"", ""\" ++ [233]%N ++ runes_of_ascii """, ""\" ++ [233]%N ++ runes_of_ascii """,
-            0, 4294967296
-        ] : i8i8,
-    },
-    @tag(1)
-    @calculatedFrom(""\" ++ [233]%N ++ runes_of_ascii """)
-    string f32a @calculatedFrom(""abc""),
-    repeat As {
-        matchKey {
-            crc @calculatedFrom(""// no comment""),
-        },
-        lengthOf `crlf
-        line`,
-        // a // b
-        // a // b
-        T Pad `a\`,
-        repeat i8i8 charz,// a // b
-    },
-}
-
-packet packetx {
-    @lengthOf(Packet)
-    repeat uint8x `line1
+Eval vm_compute in ("<<<M1677>>>" ++ check (runes_of_ascii "packet metadata {
+    repeat f64 Foo,
+    repeat Logon f32a `
+    `,
+    @calculatedFrom(""1"")
+    repeat uint8 calculatedFrom `u8 x,`,
+    char[] packetx,// packet A { u8 x, }
+    @calculatedFrom(""abc"")
+    Pad @lengthOf(msg_type) `line1
     line2`,
-    @tag(0123456789)
-    string BodyLength @calculatedFrom(""" ++ [28040; 24687]%N ++ runes_of_ascii """),// trailing space 
-    zchar[42] MetaDataX,
-    char A @lengthOf(tag) `two words`,
+    @rightPad(' ')
+    tag `" ++ [233]%N ++ runes_of_ascii "`,
     @tag(10)
-    @calculatedFrom(""" ++ [28040; 24687]%N ++ runes_of_ascii """)
-    @calculatedFrom(""x y"")
-    char[7] repeatCount @calculatedFrom(""// no comment""),
-    @calculatedFrom(""it's"")
-    char[65535] packetx `// not a comment`,
-    @leftPad(' ')
-    match tag as packetx {
-        00 : int,
+    u8x @calculatedFrom(""CRC32""),
+    match metadata as msg_type {
+        [""\n"", 0123456789] : options1,
+        ""\n"" : float,
     },
-    @tag(7)
-    @lengthOf(float)
+}
+
+packet MetaDataX {
+    string string_ `doc`,
+    @rightPad('0')
+    zchar[00] zchar `a\`,
+}
+
+options {
+    leftPad = 0
+    float = 4294967296;
+}// `tick` ""quote"" 'q'
+
+root packet body {
+    @calculatedFrom(""1"")
+    @lengthOf(int)
+    match float as Z9_ {
+        // packet A { u8 x, }
+        // trailing space 
+        42 : x,
+        ""packet"" : matchKey,
+        """ ++ [28040; 24687]%N ++ runes_of_ascii """ : o,
+        255 : float,
+    },
     @tag(0123456789)
-    Z9_,
-    @tag(00)
-    tag {
-        uint16 MetaDataX,
-        u tag `tab	here`,
-        float64 Packet @calculatedFrom(""{,}""),
-        x_y_z u128,
+    match calculatedFrom as trueish {
+        [""packet"", ""`tick`"", """ ++ [233]%N ++ runes_of_ascii "t" ++ [233]%N ++ runes_of_ascii """] : MetaDataX,
+        4294967296 : trueish,
+        3 : i64_,
+        0123456789 : f32a,
+        [
+            7, 10, ""CRC32"", ""x y"", ""\n"",
+            ""CRC32"", ""`tick`""
+        ] : body,
     },
-    char[] msg_type @lengthOf(calculatedFrom) `line1
-    line2`,
-}
-
-MetaData float {
-    uint32 crc,
-    charz msg_type,
-    u128 crc,
-    string stringy `" ++ [233]%N ++ runes_of_ascii "`,
+    char[1] Foo,
+    @rightPad(' ')
+    @calculatedFrom(""a	b"")
+    repeat string_ {
+        repeat Logon,
+        Z9_ i8i8,
+        match Z9_ as A {
+            [42] : Logon,
+            [
+                ""CRC32"", 1, ""a\""b"", 4294967296, 0,
+                ""\" ++ [233]%N ++ runes_of_ascii """
+            ] : roots,
+            ""a\""b"" : MetaDataX,
+            255 : _x,
+            65535 : rootA,
+        },
+        match _x as Foo {
+            [255, """ ++ [28040; 24687]%N ++ runes_of_ascii """, ""CRC32"", """ ++ [233]%N ++ runes_of_ascii "t" ++ [233]%N ++ runes_of_ascii """, ""abc""] : len,
+            ""a\\"" : Pad,
+            0 : falsey,
+            3 : u128,
+        },// a // b
+    },
+    repeat options1 int `{ , }`,
 }")).
-Eval vm_compute in ("<<<M1330>>>" ++ check (runes_of_ascii "// top
-packet // c0a
-  // c0b
-Frame // c1a
-  // c1b
-{ // c2a
-  // c2b
-u8 // c3
-HK // c4
-,
-    // c5
-u8
-    // c6
-BK // c7
-, // c8a
-  // c8b
-u8 // c9
-TK // c10
-, // c11a
-  // c11b
-match // c12
-HK as Hdr // c15a
-  // c15b
-{ // c16
-1
-    // c17
-:
-    // c18
-HdrA , 2 // c21
-:
-    // c22
-HdrB // c23
-, // c24a
-  // c24b
-} ,
-    // c26
-match
-    // c27
-BK as
-    // c29
-Body // c30
-{
-    // c31
-1 : // c33a
-  // c33b
-BodyA // c34
-,
-    // c35
-2 :
-    // c37
-BodyB , } // c40a
-  // c40b
-, // c41
-match // c42
-TK
-    // c43
-as // c44
-Trl // c45a
-  // c45b
-{ // c46a
-  // c46b
-1
-    // c47
-: // c48
-TrlA , // c50a
-  // c50b
-} // c51a
-  // c51b
-, // c52a
-  // c52b
-} // c53a
-  // c53b
-packet HdrA // c55
-{ u8 // c57
-a // c58a
-  // c58b
-, // c59
-} // c60
-packet // c61a
-  // c61b
-HdrB
-    // c62
-{ // c63a
-  // c63b
-u16
-    // c64
-b // c65
-, // c66
-} // c67
-packet // c68
-BodyA { // c70a
-  // c70b
-u32
-    // c71
-c // c72
-, } // c74
-packet
-    // c75
-BodyB {
-    // c77
-u64 // c78a
-  // c78b
-d // c79
-, // c80a
-  // c80b
-} // c81a
-  // c81b
-packet TrlA // c83a
-  // c83b
-{
-    // c84
-u8 e // c86
-,
-    // c87
-} // c88a
-  // c88b
-root // c89a
-  // c89b
-packet
-    // c90
-Msg
-    // c91
-{ Frame , // c94a
-  // c94b
-u8 // c95a
-  // c95b
-x // c96a
-  // c96b
-, // c97a
-  // c97b
-}
-    // c98
-")).
-Eval vm_compute in ("<<<M1881>>>" ++ check (runes_of_ascii "root
-    packet u 
-{ 
-match  //x
-
-  T
-
-as body	// c
-  {	[
-""a\""b"", 3
-
-    ]
-:
-
-    stringy ""a	b""
-	:
-	charz // a // b
-, 10	:
-
-    lengthOf 	 // " ++ [128512]%N ++ runes_of_ascii " emoji
-  	, 
-""CRC32""
-:	falsey
-,0123456789
-	:	_x ,
-
-    }
-
-,
-	body
-    @lengthOf( i64_ ) ,
-
-    u64
-	chars
-`u8 x,`  , T
-
-{  i64_
-
-    string_
-    , 
-u32
-    metadata
-
-,
-zchar[
-
-    1
-	] Z9_	, }
-
-    // c
-,
-
-    @calculatedFrom(
-""a\\"" 
-)
-rootA 	 // " ++ [128512]%N ++ runes_of_ascii " emoji
-	x_y_z	`u8 x,`
-
-,
-
-    zchar[ 007 ] body @calculatedFrom(
-
-    ""\n""
-)
-,
-@leftPad
-	(
-    '0' )
-@rightPad('0'
-    )	@calculatedFrom(
-""" ++ [233]%N ++ runes_of_ascii "t" ++ [233]%N ++ runes_of_ascii """ )repeat
-uint64 
-A ,
-repeat u8x	{
-match o
-as
-
-x
-
-    {10  :
-
-charz 
-
-// " ++ [27880; 37322]%N ++ runes_of_ascii "
-	// " ++ [27880; 37322]%N ++ runes_of_ascii "
-  ,
-
-""a	b"":matchKey
-
-    , ""x y""
-:trueish
-,
-
-    [
-""" ++ [233]%N ++ runes_of_ascii "t" ++ [233]%N ++ runes_of_ascii """
-
-]:
-
-    zchar
-	,
-""1""
-
-:  charz	// " ++ [27880; 37322]%N ++ runes_of_ascii "
-
-, 
-[	""a\""b""
-, ""abc""	,""a\\""
-,  ""abc"",
-    // packet A { u8 x, }
-  // " ++ [128512]%N ++ runes_of_ascii " emoji
-"""" 
-
-// packet A { u8 x, }
-  /// triple
-  ]
-    : u8x, }
-
-, }	,repeat falsey
-{
-	rootA
-
-tag 
-, zchar[  /// triple
-  0
-    ]  falsey
-,} ,
-charz  a1
-
-    `{ , }`
-
-, }
-root
-
-packet/// triple
-		Header	{}
-")).
-Eval vm_compute in ("<<<M1309>>>" ++ check (runes_of_ascii "// top
-packet // c0a
-  // c0b
-A { // c2
-u8 // c3a
-  // c3b
-a , // c5
-} // c6a
-  // c6b
-packet // c7a
-  // c7b
-B {
+Eval vm_compute in ("<<<M1418>>>" ++ check (runes_of_ascii "// top
+options {
+    // c1
+    StringPrefixLenType = u16;// c5
+    ArrayPrefixLenType = u32;
     // c9
-u16 b // c11
-, } // c13a
-  // c13b
-packet // c14
-C
-    // c15
-{
-    // c16
-u32
+    FixedStringPadFromLeft = true;
+    FixedStringPadChar = '0';
     // c17
-c // c18
-, // c19a
-  // c19b
 }
-    // c20
-root packet // c22a
+
+packet Cancel {
+    // c21a
+    // c21b
+}// c22a
+
+// c22b
+packet Party {
+}
+
+// c26
+packet Logon {
+}
+
+packet Ack {
+    // c33a
+    // c33b
+}// c34
+
+packet Logout {
+    // c37a
+    // c37b
+    repeat InSym87 {
+        // c40a
+        // c40b
+        InClordid94 {
+            // c42
+            string clOrdID,
+            // c45
+        },
+        // c47
+        string Px,
+        i16 Qty,// c53
+        repeat InCount71 {
+            repeat Cancel,
+            // c59
+            uint16 Tail,
+            // c62
+            char[2] x,// c67a
+            // c67b
+            repeat string Ref,// c71
+        },
+        Cancel,// c75a
+        // c75b
+    },
+}
+
+// c78
+root packet Order {
+    // c82
+    repeat string tag7,
+    @leftPad(' ')
+    // c90
+    char[3] Px,// c95a
+    // c95b
+    u8 Qty,
+    // c98
+    match Qty as Body {
+        [28, 62] : Logon,
+        // c111a
+        // c111b
+        148 : Ack,
+        // c115a
+        // c115b
+        88 : Party,
+        // c119
+        184 : Cancel,
+        // c123
+    },// c125a
+    // c125b
+    u16 Note @calculatedFrom(""CRC32""),// c131
+}")).
+Eval vm_compute in ("<<<M1823>>>" ++ check (runes_of_ascii "
+
+  // top
+    options  // c0a
+	// c0b
+{
+LittleEndian  // c2
+	  =
+
+true
+    ; 	 // c5
+
+}// c6a
+		// c6b
+  packet 
+  // c7
+
+  Logon // c8a
+// c8b
+  	{
+
+u8 
+x	// c11
+  , } 	 // c13
+	packet 	 // c14
+
+	Logout {
+u16 // c17a
+    // c17b
+reason
+	// c18
+    ,	// c19a
+
+  // c19b
+		}// c20
+root 
+
+    // c21
+	packet  // c22a
   // c22b
-M // c23
-{ u16 Kc
-    // c26
+  Frame 	 // c23a
+	// c23b
+  { 	 // c24a
+      // c24b
+u8
+
+// c25
+	Kind	// c26a
+      // c26b
+,	// c27
+  u8 	 // c28
+
+Kind2
+
+,  
+      // c30
+
+	match
+Kind
+
+    as  // c33
+  Body 
+      // c34
+	{  // c35a
+	  // c35b
+  1	// c36
+
+: 
+      // c37
+  Logon// c38
+, // c39a
+    // c39b
+	[ // c40a
+// c40b
+
+2 	 // c41
+, 
+
+    // c42
+
+3// c43
+  	,
+
+    4 ]
+// c46
+:	// c47
+	Logout 
+    // c48
+	  , // c49a
+  // c49b
+
+  100 // c50
+
+: 
+
+// c51
+  Logon	// c52a
+	// c52b
+
+,  
+  // c53
+  }
+    ,// c55
+    match // c56a
+  // c56b
+    	Kind2 as 
+// c58
+Trailer	// c59a
+    	// c59b
+    	{	// c60
+    0 	 // c61
+    :
+    // c62
+  Logout // c63a
+  	// c63b
+, 
+}  , 	 // c66a
+// c66b
+    }
+")).
+Eval vm_compute in ("<<<M176>>>" ++ check (runes_of_ascii "
+packet i8i8 { @tag( 0 ) int32
+leftPad `it's`
+, repeat char[]Header`crlf
+line`
+, @calculatedFrom( ""\" ++ [233]%N ++ runes_of_ascii """ )/// triple
+repeat
+    uint8 float , @rightPad
+('\x00' ) char[] zchar@lengthOf(
+// a // b
+//x
+leftPad )
+`
+` , Z9_ ,
+@lengthOf(
+x ) match As as
+    tag {	""a	b""  :
+string_ [
+10 , 7 , ""1"" , 255
 ,
-    // c27
-u16 // c28a
-  // c28b
-Kb , // c30
-u16 Ka
-    // c32
-, match // c34a
-  // c34b
-Kc // c35
-as X
-    // c37
-{
-    // c38
-9 // c39
-:
-    // c40
-A
-    // c41
-, 10 :
-    // c44
-B
-    // c45
-,
-    // c46
-} , match
-    // c49
-Kb // c50
-as // c51a
-  // c51b
-Y // c52
-{ 2 // c54a
-  // c54b
-:
-    // c55
-C , // c57
-1 // c58
-: A , // c61a
-  // c61b
-} // c62
-, // c63a
-  // c63b
-match
-    // c64
-Ka as // c66
-Z // c67
-{
-    // c68
-1 // c69a
-  // c69b
-: B // c71a
-  // c71b
-, // c72
-} // c73a
-  // c73b
-, // c74
-A // c75a
-  // c75b
-, // c76
-B
-    // c77
-,
-    // c78
-C , // c80
-} ")).
+3
+    , 42 ,
+    //
+    0123456789, """ ++ [128512]%N ++ runes_of_ascii """ ] :x_y_z ,""CRC32""
+: Z9_  , 00
+    // c
+    : Logon
+    ,
+} , @tag(007) o {
+    char
+    Packet
+@lengthOf(
+    //	t
+    repeatCount
+) , } , @lengthOf(
+// " ++ [27880; 37322]%N ++ runes_of_ascii "
+/// triple
+pack
+) float64 rootA `two words`
+    ,	repeat char[] BodyLength ,}
+packet Z9_{ match
+    // packet A { u8 x, }
+    As
+as
+    a1{ //
+0: trueish // `tick` ""quote"" 'q'
+,} ,
+/// triple
+// " ++ [27880; 37322]%N ++ runes_of_ascii "
+} root packet u8x {
+/// triple
+// " ++ [128512]%N ++ runes_of_ascii " emoji
+repeat
+string Logon `tab	here` , // " ++ [128512]%N ++ runes_of_ascii " emoji
+}	options { _x
+=
+    ""packet""
+;f32a =007 } packet i8i8 {@calculatedFrom( ""CRC32"" )
+A @lengthOf(
+a1
+)
+, } 	 ")).
 Eval vm_compute in ("<<<M141>>>" ++ check (runes_of_ascii "options // @lengthOf(
 {zchar = char[] Z9_	='0' ;
 } options
@@ -514,502 +408,564 @@ T { [
 } root
 packet	body{ }
 ")).
-Eval vm_compute in ("<<<M1680>>>" ++ check (runes_of_ascii "MetaData len {
-    i8 _x ``,
-    zchar[00] tag,
-    roots u,
-    uint16 repeatCount,
-    msg_type tag,
-}
-
-packet x_y_z {
-    metadata {
-        i8i8 chars,
-        i64 chars,
-    },
-    repeat u16 asx,
-}
-
-packet u8x {
-    @lengthOf(BodyLength)
-    @leftPad()
-    float `
-    `,
-    @calculatedFrom(""// no comment"")
-    float32 chars `// not a comment`,
-    uint32 u128,
-    @tag(0)
-    int16 tag,
-    leftPad msg_type,// trailing space 
-    pack `tab	here`,
-    @lengthOf(repeatCount)
-    zchar[4294967296] len,
-    i32 packetx `tab	here`,
-    calculatedFrom,
-    metadata @calculatedFrom(""// no comment""),
-}
-
-options {
-    // trailing space 
-    options1 = 42;
-    i64_ = char[]
-    falsey = 42// a // b
-    Packet = true;
-}")).
-Eval vm_compute in ("<<<M216>>>" ++ check (runes_of_ascii "// " ++ [27880; 37322]%N ++ runes_of_ascii "
-packet chars {match
-charz
-as
-    // trailing space 
-    A // trailing space 
-{0123456789: rootA ,
-    42
-:
-    x , ""1"" :Logon , 7 :u , ""\n"" : packetx , }, char[]MetaDataX
-@calculatedFrom(""""
-) `" ++ [233]%N ++ runes_of_ascii "`
-    // trailing space 
-    ,	@leftPad( ' ' )  char[] Foo,
-    crc , f64 string_ , // " ++ [128512]%N ++ runes_of_ascii " emoji
-char[]
-packetx,i64 u8x@lengthOf(  stringy ) `// not a comment`, repeat zchar {
-repeat
-A _x , lengthOf	@lengthOf( u8x
-) ,	match A as matchKey { 3 :Z9_ , ""// no comment"": As 00 //x
-:
-i64_ ,
-// a // b
-// " ++ [128512]%N ++ runes_of_ascii " emoji
-""a\\""  :i64_ , [ ""`tick`""/// triple
-] : T ,
-    }
-,
-// a // b
-// packet A { u8 x, }
-uint32 T
-`" ++ [28040; 24687; 31867; 22411]%N ++ runes_of_ascii "`
-    , }
-    , uint64
-    /// triple
-    charz
-, }")).
-Eval vm_compute in ("<<<M131>>>" ++ check (runes_of_ascii "
-root
-packet
-u8x{ char
-// trailing space 
-// @lengthOf(
-i64_ ,repeat char[1
-] Z9_ , @tag(
-//x
-// " ++ [128512]%N ++ runes_of_ascii " emoji
-42
-) repeat Logon MetaDataX , @leftPad
-    //
-    ( )
-    Foo
-@lengthOf( As
-    ) // " ++ [128512]%N ++ runes_of_ascii " emoji
-, match u128	as //	t
-calculatedFrom {// " ++ [128512]%N ++ runes_of_ascii " emoji
-4294967296:
-BodyLength,
-    3:  A , //
-[ 4294967296//
-, ""packet""] : o	, 65535 : roots } ,
-repeat Pad { uint64 x @calculatedFrom( """ ++ [128512]%N ++ runes_of_ascii """
-    ) , a1 @lengthOf( As)
-    `line1
-line2` ,	repeat string_{repeat uint32 _x	, f32
-MetaDataX `it's`
-    //	t
-    , u64 As  @lengthOf( crc ) , } ,
-    roots , }, zchar[  00] // @lengthOf(
-u128, }
-//	t
-")).
-Eval vm_compute in ("<<<M1732>>>" ++ check (runes_of_ascii "packet u128 {
-    // trailing space 
-    string Header `say ""hi""`,
-    repeat crc f32a,
-    char[10] _x,
-    @calculatedFrom(""x y"")
-    repeat charz {
-        Logon @lengthOf(T) `crlf
-        line`,
-        repeat char[0123456789] Z9_ `crlf
-        line`,
-    },
-    match Packet as float {
-        1 : lengthOf,
-    },
-    MetaDataX,
-    match x as u8x {
-        10 : crc,
-    },
-}
-
-root packet Header {
-    @calculatedFrom(""{,}"")
-    a1 {
-        char[007] pack,
-        stringy zchar,
-        repeat char[] o `it's`,
-    },
-}")).
-Eval vm_compute in ("<<<M334>>>" ++ check (runes_of_ascii "MetaData pack {
-int16 rootA `{ , }` ,
-    //	t
-    int16 // c
-x,// " ++ [27880; 37322]%N ++ runes_of_ascii "
-u32 msg_type,
-    }
-packet i64_
-    {// trailing space 
-@leftPad
-    ( '0') @rightPad ( '\x00' // packet A { u8 x, }
-)
-@lengthOf(options1	)
-    string body @lengthOf( asx) `" ++ [233]%N ++ runes_of_ascii "` ,
-    }
-options { msg_type
-    //	t
-    = 00//
-;} MetaData
-    stringy// c
-{
-    zchar MetaDataX `line1
-line2` , char[255] len `it's` , f32 pack ,
-    uint16 Foo
-`it's` , int16 i64_`two words` ,
-    // `tick` ""quote"" 'q'
-    }")).
-Eval vm_compute in ("<<<M1730>>>" ++ check (runes_of_ascii "
-// top
-	  options  // c0
-	{  // c1
-    	f32a// c2
-      = 	 // c3
-0  // c4
-	} 	 // c5
-
-packet// c6
-	trueish// c7
-
-	{  // c8
-
-}// c9
-  MetaData 	 // c10
-  _x // c11
-	{// c12
-    char[  // c13
-	0123456789 // c14
-    ] // c15
-	zchar // c16
-,  // c17
-    string 	 // c18
-		crc 	 // c19
-
-,// c20
-	  char[	// c21
-
-1  // c22
-]// c23
-
-	options1	// c24
-  ,  // c25
-    uint8  // c26
-    	repeatCount	// c27
-,  // c28
-  }// c29
-")).
-Eval vm_compute in ("<<<M1656>>>" ++ check (runes_of_ascii "// top
-    	packet 
-
-// c0
-B
-
-    // c1
-
-{	// c2
-	u8  
-  // c3
-      a 	 // c4
-  , string  // c6
-	s 
-	    // c7
-,}
-	root	// c10
-    	packet 
-    // c11
-  P  // c12a
-  // c12b
-	{
-	    // c13
-	u16 
-	    // c14
-  L	// c15a
-  	// c15b
-	@lengthOf(
-B 
-      // c17
-  ) 
-
-// c18
-  ,
-        // c19
-    B  
-      // c20
-  ,
-u8	// c22a
-    // c22b
-
-t
-    // c23
-		, 	 // c24
-	}
-")).
-Eval vm_compute in ("<<<M248>>>" ++ check (runes_of_ascii "packet a1
-    { char[]	charz @calculatedFrom(
-    //x
-    """ ++ [28040; 24687]%N ++ runes_of_ascii """)
-,
-    uint8x`crlf
-line`
-    , uint64 T  `line1
-line2` ,
-    @leftPad (
-'0')
-// a // b
-/// triple
-@calculatedFrom( ""abc"" )
-@tag( 3 ) match
-int // a // b
-as len
-{ 0	:  chars, [ 10, ""a\\"",
-1 ,0 ,10 , 0
-    ] : body, 007 :
-    // a // b
-    rootA // a // b
-, } , falsey options1 , }
-")).
-Eval vm_compute in ("<<<M1472>>>" ++ check (runes_of_ascii "// top
-packet float {
-    // c2
-    @rightPad()
+Eval vm_compute in ("<<<M1358>>>" ++ check (runes_of_ascii "// top
+options // c0a
+  // c0b
+{ // c1a
+  // c1b
+LittleEndian = false ;
     // c5
-    rootA @lengthOf(trueish),
+StringPrefixLenType =
+    // c7
+u16 ; // c9
+} // c10
+packet
+    // c11
+Heartbeat { // c13
+@rightPad // c14
+( // c15a
+  // c15b
+'0' ) // c17a
+  // c17b
+char[ 7 // c19a
+  // c19b
+] seqNo // c21a
+  // c21b
+, // c22a
+  // c22b
+uint64 // c23a
+  // c23b
+Tail // c24a
+  // c24b
+, i16 // c26
+Flags // c27a
+  // c27b
+, u16
+    // c29
+msgKind // c30
+, // c31a
+  // c31b
+}
+    // c32
+root // c33a
+  // c33b
+packet // c34
+Reject
+    // c35
+{ // c36a
+  // c36b
+zchar[ 3 ] // c39a
+  // c39b
+tag7 // c40
+,
+    // c41
+repeat // c42
+Heartbeat // c43a
+  // c43b
+, // c44
+repeat // c45a
+  // c45b
+string
+    // c46
+clOrdID // c47a
+  // c47b
+, // c48
+} // c49
+")).
+Eval vm_compute in ("<<<M1770>>>" ++ check (runes_of_ascii "
+
+  root// c
+  packet 
+asx{ @rightPad(
+' ' )  @lengthOf( int )  @tag(
+
+0
+	) 
+u64
+
+uint8x 
+@calculatedFrom(
+
+    ""packet"" ),
+uint32
+
+i64_ ,
+// c
+	repeat options1 o, 
+match	f32a as/// triple
+	falsey // " ++ [27880; 37322]%N ++ runes_of_ascii "
+{ 
+42 : 
+stringy 10
+	:As  ,	""""
+:  Packet
+	,
+	}
+    , @calculatedFrom( ""it's"" ) 	 // " ++ [128512]%N ++ runes_of_ascii " emoji
+    f64
+a1
+	,@lengthOf( 
+tag
+	)  match 
+roots  as  MetaDataX {	""" ++ [128512]%N ++ runes_of_ascii """
+
+:
+    f32a
+    ,
+
+    ""\n""	:
+
+    As
+	[
+	255 ]
+
+:
+A
+
+    ,}
+	,a1
+
+@calculatedFrom(
+	""abc""
+)  ``,@rightPad	(	)@rightPad (
+
+    '\x00' ) @calculatedFrom(
+""CRC32""
+	)body 
+As  ,
+} root
+
+packet
+packetx {
+	    //x
+//
+repeat
+lengthOf 
+Logon  `" ++ [28040; 24687; 31867; 22411]%N ++ runes_of_ascii "`
+	,	//	t
+      } ")).
+Eval vm_compute in ("<<<M1114>>>" ++ check (runes_of_ascii "// top
+packet
+    // c0
+float
+    // c1
+{
+    // c2
+@rightPad
+    // c3
+(
+    // c4
+)
+    // c5
+rootA
+    // c6
+@lengthOf(
+    // c7
+trueish
+    // c8
+)
+    // c9
+,
     // c10
-    stringy @lengthOf(matchKey),
+stringy
+    // c11
+@lengthOf(
+    // c12
+matchKey
+    // c13
+)
+    // c14
+,
     // c15
-    char[4294967296] pack @lengthOf(uint8x),
+char[
+    // c16
+4294967296
+    // c17
+]
+    // c18
+pack
+    // c19
+@lengthOf(
+    // c20
+uint8x
+    // c21
+)
+    // c22
+,
     // c23
 }
-
-// c24
-root packet trueish {
+    // c24
+root
+    // c25
+packet
+    // c26
+trueish
+    // c27
+{
     // c28
-    repeat uint64 u128 `line1
-        line2`,
+repeat
+    // c29
+uint64
+    // c30
+u128
+    // c31
+`line1
+line2`
+    // c32
+,
     // c33
 }
-// c34")).
-Eval vm_compute in ("<<<M1849>>>" ++ check (runes_of_ascii "options {
-    a1 = '\x00'
-    As = ""{,}""
-    u8x = ""a	b"";
-    asx = u64;
-    o = 0123456789
+    // c34
+")).
+Eval vm_compute in ("<<<M1367>>>" ++ check (runes_of_ascii "options {
+    StringPrefixLenType = u8;
+    ArrayPrefixLenType = u8;
+    FixedStringPadFromLeft = false;
+    FixedStringPadChar = ' ';
 }
-
-packet Header {
-    //
-    @lengthOf(x)
-    // " ++ [27880; 37322]%N ++ runes_of_ascii "
-    repeat falsey {
-        repeatCount trueish `u8 x,`,
+packet Ack {
+    char[] tag7,
+}
+packet Reject {
+    InSym61 {
+        repeat Ack,
+        zchar[4] f1,
     },
-    // `tick` ""quote"" 'q'
-    // " ++ [128512]%N ++ runes_of_ascii " emoji
-    zchar[65535] x,
-}")).
-Eval vm_compute in ("<<<M267>>>" ++ check (runes_of_ascii "packet trueish{
-@leftPad (// @lengthOf(
-'0'  ) @tag(  3/// triple
-) @tag(
-7 ) repeat
-//x
-// @lengthOf(
+}
+packet Logout {
+    char[4] clOrdID,
+}
+root packet Cancel {
+    @leftPad(' ') char[10] price,
+    u8 x,
+    u32 venue @lengthOf(Body),
+    match x as Body {
+        [92, 175] : Logout,
+        26 : Reject,
+        144 : Ack,
+    },
+    u16 count @calculatedFrom(""CR\
+C32""),
+}
+")).
+Eval vm_compute in ("<<<M340>>>" ++ check (runes_of_ascii "packet leftPad//
+{@rightPad () repeat chars	{crc /// triple
+pack  ,
+} ,
+@calculatedFrom( """ ++ [28040; 24687]%N ++ runes_of_ascii """ )@lengthOf(options1  )@tag( 65535 ) Foo,match
 matchKey
-{ u32 u,
-}  , @lengthOf( chars
-) @calculatedFrom(
-""a	b"") @tag( 0123456789
-    )zchar[255 ]Pad ,  } root
-    packet u { }
-")).
-Eval vm_compute in ("<<<M273>>>" ++ check (runes_of_ascii "root packet string_ { @leftPad (
-    ' ' )  chars { repeat
-zchar[ 0
-]  tag ,string falsey,// " ++ [128512]%N ++ runes_of_ascii " emoji
-repeat  char[ 007] body  `two words`
-    , } , @calculatedFrom(
-""// no comment"" ) Foo T
-    , // " ++ [128512]%N ++ runes_of_ascii " emoji
-}
-")).
-Eval vm_compute in ("<<<M357>>>" ++ check (runes_of_ascii "MetaData x_y_z
-{
-lengthOf // packet A { u8 x, }
-rootA , MetaDataX// " ++ [128512]%N ++ runes_of_ascii " emoji
-_x , char[ 4294967296 ] stringy , char[
-//
-// c
-007
-] u128
-, tag u8x `line1
-line2` ,  uint8 u128 , }
-")).
-Eval vm_compute in ("<<<M1196>>>" ++ check (runes_of_ascii "// top
-packet // c0a
-  // c0b
-body
-    // c1
-{ i32 // c3
-f32a
-    // c4
-`{ , }` // c5a
-  // c5b
-, }
-    // c7
-options // c8a
-  // c8b
-{ // c9
-} // c10a
-  // c10b
-")).
-Eval vm_compute in ("<<<M406>>>" ++ check (runes_of_ascii "packet uint8x
-{ match match pack
-    as msg_type	{
-    0123456789 :	float
-}
-,
-} packet //	t
-a1
-    { } options {packetx
-    = '\x00'	; u128= ""a	b""  ; }
-")).
-Eval vm_compute in ("<<<M401>>>" ++ check (runes_of_ascii "packet uint8x
-{ { match pack
-    as msg_type	{
-    0123456789 :	float
-}
-,
-} packet //	t
-a1
-    { } options {packetx
-    = '\x00'	; u128= ""a	b""  ; }
-")).
-Eval vm_compute in ("<<<M549>>>" ++ check (runes_of_ascii "pa\cket uint8x
-{ match pack
-    as msg_type	{
-    0123456789 :	float
-}
-,
-} packet //	t
-a1
-    { } options {packetx
-    = '\x00'	; u128= ""a	b""  ; }
-")).
-Eval vm_compute in ("<<<M507>>>" ++ check (runes_of_ascii "packet uint8x
-{ match pack
-    as msg_type	{
-    0123456789 :	float
-}
-,
-} packet //	t
-a1
-    { } options {packetx
-    = '\x00'	u128 ;= ""a	b""  ; }
-")).
-Eval vm_compute in ("<<<M465>>>" ++ check (runes_of_ascii "packet uint8x
-{ match pack
-    as msg_type	{
-    0123456789 :	float
-}
-,
-} packet //	t
+    as // " ++ [128512]%N ++ runes_of_ascii " emoji
+tag	{
+    // c
+    [ ""{,}"",
+""""
+, ""`tick`"" ,
+3 ,""it's"",  """ ++ [128512]%N ++ runes_of_ascii """	,
+""it's""] :As
+    , [
+/// triple
+//	t
+""x y""]
+    //x
+    :
+chars,""" ++ [233]%N ++ runes_of_ascii "t" ++ [233]%N ++ runes_of_ascii """	:uint8x,4294967296:	packetx
+""// no comment""
+:
+calculatedFrom , }
+,  @calculatedFrom( ""// no comment""// @lengthOf(
+)
+char[// trailing space 
+007 ]	f32a ,} // a // b")).
+Eval vm_compute in ("<<<M1444>>>" ++ check (runes_of_ascii "  options// " ++ [27880; 37322]%N ++ runes_of_ascii "
 
+  {
+
+T
+    =zchar[ 42 ]
+options1
+    = 
+uint8 ;
+lengthOf
+
+= 
+// a // b
+		char[ 4294967296 ]; } packet Z9_
+	{
+repeat MetaDataX
+	`crlf
+line`
+
+, 
+repeat string 
+x_y_z,  u32
+    x	,// `tick` ""quote"" 'q'
+
+  @tag(
+	// " ++ [128512]%N ++ runes_of_ascii " emoji
+	// " ++ [128512]%N ++ runes_of_ascii " emoji
+
+	00
+    ) repeat
+    i64  Logon	,  u8x
+f32a ,repeat	lengthOf 
+``,
+repeat stringy
+
+Pad
+        // @lengthOf(
+    `
+`	,  repeat
+string_
+    chars `// not a comment` , }
+")).
+Eval vm_compute in ("<<<M1792>>>" ++ check (runes_of_ascii "// top
+MetaData Packet {
+    // c2
+}// c3
+
+packet charz {
+    // c6
+    Foo asx `it's`,// c10
+    @lengthOf(T)
+    // c13
+    @calculatedFrom("""")
+    // c16
+    @calculatedFrom(""x y"")
+    // c19
+    zchar[007] repeatCount @lengthOf(int) `a\`,// c28
+    i8 string_,// c31
+    repeat options1 Pad,// c35
+}// c36
+
+root packet Packet {
+    // c40
+    int8 float `doc`,// c44
+}// c45")).
+Eval vm_compute in ("<<<M110>>>" ++ check (runes_of_ascii "root // trailing space 
+packet
+leftPad { T
+@lengthOf(A
+) `" ++ [233]%N ++ runes_of_ascii "`,
+    Header
+    @lengthOf( As ) // " ++ [27880; 37322]%N ++ runes_of_ascii "
+,
+string	calculatedFrom `{ , }`
+, @tag( 1) // trailing space 
+u16  x_y_z ,
+@tag( 4294967296
+) x_y_z metadata// " ++ [128512]%N ++ runes_of_ascii " emoji
+,asx { asx `it's`
+    ,} , char[ 65535 ]
+As@lengthOf(
+    Logon ) `a\`
+,@lengthOf(
+Z9_
+    ) string
+BodyLength ,
+}")).
+Eval vm_compute in ("<<<M81>>>" ++ check (runes_of_ascii "root packet o {
+} MetaData uint8x
+    { int64 rootA  ,}
+    MetaData
+As{i32 // packet A { u8 x, }
+chars,	}packet Z9_// trailing space 
+{
+@leftPad( )char[]	x_y_z,} packet tag {	@leftPad(
+// " ++ [128512]%N ++ runes_of_ascii " emoji
+// " ++ [27880; 37322]%N ++ runes_of_ascii "
+' '
+    )
+zchar[ 0 // `tick` ""quote"" 'q'
+] rootA @calculatedFrom(
+    ""a\\"" )
+    `tab	here`
+,}")).
+Eval vm_compute in ("<<<M1357>>>" ++ check (runes_of_ascii "options {
+    LittleEndian = false;
+    StringPrefixLenType = u16;
+}
+packet Heartbeat {
+    @rightPad('0') char[7] seqNo,
+    uint64 Tail,
+    i16 Flags,
+    u16 msgKind,
+}
+root packet Reject {
+    zchar[3] tag7,
+    repeat Heartbeat,
+    repeat string clOrdID,
+}
+")).
+Eval vm_compute in ("<<<M1711>>>" ++ check (runes_of_ascii "
+packet	lengthOf
+{ 
+}
+root packet	leftPad
+{	zchar[ 00 	 // a // b
+  ] Foo`` 	 // c
+  ,
+    @calculatedFrom( ""1""  ) 
+@leftPad
+(
+
+' ' 
+	    // trailing space 
+  	// " ++ [27880; 37322]%N ++ runes_of_ascii "
+	  )  @leftPad( ' '
+)
+
+    repeat
+u8  options1
+    , }
+
+")).
+Eval vm_compute in ("<<<M318>>>" ++ check (runes_of_ascii "options {Z9_ =// trailing space 
+""packet"" ;float = false
+; A =
+' ' }
+    // c
+    MetaData pack
+{ zchar[
+3] leftPad
+,zchar
+    falsey `it's` , char[] repeatCount ,char[ 65535 // " ++ [128512]%N ++ runes_of_ascii " emoji
+] Z9_, }
+//	t
+")).
+Eval vm_compute in ("<<<M1499>>>" ++ check (runes_of_ascii "packet A {
+    match k as n {
+        [
+            ""a"", ""bb"", ""c c"", ""d"", ""e"",
+            ""f"", ""g"", ""h"", ""i"", ""j"",
+            ""k"", ""l""
+        ] : B,
+        2 : C,
+    },
+}")).
+Eval vm_compute in ("<<<M73>>>" ++ check (runes_of_ascii "root
+    packet As { //
+char	charz @lengthOf( packetx
+) `{ , }`,//
+char[0123456789
+]
+MetaDataX
+// " ++ [27880; 37322]%N ++ runes_of_ascii "
+// `tick` ""quote"" 'q'
+`it's` , zchar[
+    7]o `u8 x,`
+, }")).
+Eval vm_compute in ("<<<M55>>>" ++ check (runes_of_ascii "MetaData x_y_z
+//x
+//x
+{ int32
+    o
+,zchar[
+65535  ]Packet , i64_ o , i64 o`
+` , } options
+{ x =
+//x
+/// triple
+u8;
+// " ++ [27880; 37322]%N ++ runes_of_ascii "
+// a // b
+} // trailing space ")).
+Eval vm_compute in ("<<<M496>>>" ++ check (runes_of_ascii "packet uint8x
+{ match pack
+    as msg_type	{
+    0123456789 :	float
+}
+,
+} packet //	t
+a1
+    { } options {packetx
+    = = '\x00'	; u128= ""a	b""  ; }
+")).
+Eval vm_compute in ("<<<M417>>>" ++ check (runes_of_ascii "packet uint8x
+{ match pack
+    msg_type as	{
+    0123456789 :	float
+}
+,
+} packet //	t
+a1
     { } options {packetx
     = '\x00'	; u128= ""a	b""  ; }
 ")).
-Eval vm_compute in ("<<<M687>>>" ++ check (runes_of_ascii "// @lengthOf(
-packet i8i8 { u128 o , , }
+Eval vm_compute in ("<<<M425>>>" ++ check (runes_of_ascii "packet uint8x
+{ match pack
+    as msg_type	
+    0123456789 :	float
+}
+,
+} packet //	t
+a1
+    { } options {packetx
+    = '\x00'	; u128= ""a	b""  ; }
+")).
+Eval vm_compute in ("<<<M1789>>>" ++ check (runes_of_ascii "
+
+  packet 
+A {  match
+k
+	as n{
+	[ ""a""
+
+, 22
+
+,
+""c c""  ,
+	4
+,
+""e""  ,
+	66
+,
+
+""g""	,
+8
+	,
+	""i""
+	,
+10,
+
+    ""k""
+	,
+12
+]
+    :B
+	, 2
+
+: C },
+
+}
+")).
+Eval vm_compute in ("<<<M551>>>" ++ check (runes_of_ascii "packet uint8x
+{ match pack
+    as " ++ [21517; 23383]%N ++ runes_of_ascii "	{
+    0123456789 :	float
+}
+,
+} packet //	t
+a1
+    { } options {packetx
+    = '\x00'	; u128= ""a	b""  ; }
+")).
+Eval vm_compute in ("<<<M663>>>" ++ check (runes_of_ascii "// @lengthOf(
+packet i8i8 { u128 o , }
 options { MetaDataX = true;
     BodyLength =""packet"" x_y_z= 007
 crc //x
 = ""abc"" ;
     msg_type =
-i16 }")).
-Eval vm_compute in ("<<<M707>>>" ++ check (runes_of_ascii "// @lengthOf(
+i16 ")).
+Eval vm_compute in ("<<<M686>>>" ++ check (runes_of_ascii "// @lengthOf(
 packet i8i8 { u128 o , }
-options { MetaDataX = true;
-    BodyLength =MetaData x_y_z= 007
+options { f64 = true;
+    BodyLength =""packet"" x_y_z= 007
 crc //x
 = ""abc"" ;
     msg_type =
 i16 }")).
-Eval vm_compute in ("<<<M1668>>>" ++ check (runes_of_ascii "packet A {
-    Inner {
-        u8 x `
-                x`,
-        Deep {
-            u8 y `
-                        x`,
-        },
-    },
-}")).
-Eval vm_compute in ("<<<M1832>>>" ++ check (runes_of_ascii "packet T {
-    int u,
-    @calculatedFrom(""\" ++ [233]%N ++ runes_of_ascii """)
-    // `tick` ""quote"" 'q'
-    repeat string x_y_z,
-    uint32 int `crlf
-    line`,
-}")).
-Eval vm_compute in ("<<<M1721>>>" ++ check (runes_of_ascii "packet A {
-    u16 len @lengthOf(body) `a
-    
-    b`,
-    u32 crc @calculatedFrom(""CRC32"") `a
-    
-    b`,
-    string body,
-}")).
-Eval vm_compute in ("<<<M1144>>>" ++ check (runes_of_ascii "MetaData
-// c
-leftPad { chars MetaDataX , } packet repeatCount { char[ 255 ] uint8x `" ++ [233]%N ++ runes_of_ascii "` , } MetaData pack { As Foo , }")).
-Eval vm_compute in ("<<<M1176>>>" ++ check (runes_of_ascii "MetaData leftPad { chars MetaDataX , } packet repeatCount { char[ 255 ] uint8x `" ++ [233]%N ++ runes_of_ascii "` , }
-// c
-MetaData pack { As Foo , }")).
-Eval vm_compute in ("<<<M1491>>>" ++ check (runes_of_ascii "packet
-
-    FooBar{
-	u8
-	a
-
-    ,
-
-}packet
-
-foo_bar
-{  u16
-	b 
-, } root packet R {FooBar, foo_bar
-
-    , }
-")).
-Eval vm_compute in ("<<<M489>>>" ++ check (runes_of_ascii "packet uint8x
+Eval vm_compute in ("<<<M514>>>" ++ check (runes_of_ascii "packet uint8x
 { match pack
     as msg_type	{
     0123456789 :	float
@@ -1017,120 +973,138 @@ Eval vm_compute in ("<<<M489>>>" ++ check (runes_of_ascii "packet uint8x
 ,
 } packet //	t
 a1
-    { } options")).
-Eval vm_compute in ("<<<M353>>>" ++ check (runes_of_ascii "options { _x
-    =
-    ""`tick`""	;matchKey=
-""it's""
-;	options1
-    = u16 ; stringy= true
-    // c
-    }
-")).
-Eval vm_compute in ("<<<M1565>>>" ++ check (runes_of_ascii "packet A {
-    Inner {
-        match k as n {
-            [1, 22, 007, 4] : B,
-        },
-    },
-}")).
-Eval vm_compute in ("<<<M872>>>" ++ check (runes_of_ascii "packet A {
-  match k as n {
-    [""a"", 22, ""c c"", 4, ""e"", 66, ""g"", 8, ""i""] : B
-    2 : C
-  },
-}")).
-Eval vm_compute in ("<<<M618>>>" ++ check (runes_of_ascii "
-packet
-    asx {match u128 as lengthOf
-{
-//	t
-// `tick` ""quote"" 'q'
-255 : x ,
-    } , ,	}")).
-Eval vm_compute in ("<<<M589>>>" ++ check (runes_of_ascii "
-packet
-    asx {match u128 as lengthOf
-255
-//	t
-// `tick` ""quote"" 'q'
-{ : x ,
-    } ,	}")).
-Eval vm_compute in ("<<<M936>>>" ++ check (runes_of_ascii "packet A {
-    B b `a
-    b
-  c`,
-    B `a
-    b
-  c`,
-    repeat B bs `a
-    b
-  c`,
-}")).
-Eval vm_compute in ("<<<M1499>>>" ++ check (runes_of_ascii "packet A {
-    match k as n {
-        [1, 22, ""c c"", 4] : B,
-        2 : C,
-    },
-}")).
-Eval vm_compute in ("<<<M824>>>" ++ check (runes_of_ascii "packet A {
-  match k as n {
-    [""a"", ""bb"", 007, ""d"", ""e""] : B
-    2 : C
-  },
-}")).
-Eval vm_compute in ("<<<M464>>>" ++ check (runes_of_ascii "packet uint8x
+    { } options {packetx
+    = '\x00'	;")).
+Eval vm_compute in ("<<<M504>>>" ++ check (runes_of_ascii "packet uint8x
 { match pack
     as msg_type	{
     0123456789 :	float
 }
 ,
+} packet //	t
+a1
+    { } options {packetx
+    =")).
+Eval vm_compute in ("<<<M1150>>>" ++ check (runes_of_ascii "MetaData leftPad { chars
+// c
+MetaDataX , } packet repeatCount { char[ 255 ] uint8x `" ++ [233]%N ++ runes_of_ascii "` , } MetaData pack { As Foo , }")).
+Eval vm_compute in ("<<<M1182>>>" ++ check (runes_of_ascii "MetaData leftPad { chars MetaDataX , } packet repeatCount { char[ 255 ] uint8x `" ++ [233]%N ++ runes_of_ascii "` , } MetaData pack {
+// c
+As Foo , }")).
+Eval vm_compute in ("<<<M136>>>" ++ check (runes_of_ascii "// a // b
+options { // " ++ [128512]%N ++ runes_of_ascii " emoji
+calculatedFrom=
+'\x00'	; BodyLength = true ;asx // packet A { u8 x, }
+= true }")).
+Eval vm_compute in ("<<<M955>>>" ++ check (runes_of_ascii "packet A {
+    u16 len @lengthOf(body) `
+x`,
+    u32 crc @calculatedFrom(""CRC32"") `
+x`,
+    string body,
 }")).
-Eval vm_compute in ("<<<M790>>>" ++ check (runes_of_ascii "packet A {
+Eval vm_compute in ("<<<M1317>>>" ++ check (runes_of_ascii "packet FooBar {
+    u8 a,
+}
+packet foo_bar {
+    u16 b,
+}
+root packet R {
+    FooBar,
+    foo_bar,
+}
+")).
+Eval vm_compute in ("<<<M258>>>" ++ check (runes_of_ascii "packet
+    metadata{ u32 // `tick` ""quote"" 'q'
+Packet `say ""hi""`
+,
+    // trailing space 
+    }")).
+Eval vm_compute in ("<<<M863>>>" ++ check (runes_of_ascii "packet A {
   match k as n {
-    [""a"", ""bb"", ""c c""] : B
+    [""a"", ""bb"", 007, ""d"", ""e"", 66, ""g"", ""h""] : B
     2 : C
   },
 }")).
-Eval vm_compute in ("<<<M1581>>>" ++ check (runes_of_ascii "MetaData M {
-    u8 x `tab
-        	x`,
-    T t `tab
-        	x`,
-}")).
-Eval vm_compute in ("<<<M1729>>>" ++ check (runes_of_ascii "packet
-A
-{ match  k
-	as
-n
-
-{
-
-    [
-    1
-
-]
-: B 2 :	C
-
-},}
+Eval vm_compute in ("<<<M229>>>" ++ check (runes_of_ascii "// a // b
+options{
+Foo
+= '\x00'
+    pack
+= zchar[ 65535]
+// " ++ [128512]%N ++ runes_of_ascii " emoji
+//x
+;	int = ""\n"" ;	}
 ")).
-Eval vm_compute in ("<<<M1394>>>" ++ check (runes_of_ascii "// top
+Eval vm_compute in ("<<<M856>>>" ++ check (runes_of_ascii "packet A {
+  match k as n {
+    [1, ""bb"", 007, ""d"", 5, ""f"", 7, ""h""] : B,
+    2 : C
+  },
+}")).
+Eval vm_compute in ("<<<M829>>>" ++ check (runes_of_ascii "packet A {
+  match k as n {
+    [""a"", ""bb"", ""c c"", ""d"", ""e"", ""f""] : B
+    2 : C
+  },
+}")).
+Eval vm_compute in ("<<<M966>>>" ++ check (runes_of_ascii "packet A {
+    u32 crc @calculatedFrom(""x\
+y""),
+    @calculatedFrom(""x\
+y"") u8 y,
+}")).
+Eval vm_compute in ("<<<M1252>>>" ++ check (runes_of_ascii "packet Inner {
+    u8 a,
+}
 root packet P {
-    // c3
-    string s,
-    // c6
-}")).
-Eval vm_compute in ("<<<M1078>>>" ++ check (runes_of_ascii "// a
-MetaData M {} // b
-// c
-MetaData N {} // d
-// e")).
-Eval vm_compute in ("<<<M777>>>" ++ check (runes_of_ascii "packet A { Inner { match k as n { [1] : B, }, }, }")).
-Eval vm_compute in ("<<<M7>>>" ++ check (runes_of_ascii "options {  metadata = ""a\\""// @lengthOf(
-;}
+    repeat Inner items,
+    u8 x,
+}
 ")).
-Eval vm_compute in ("<<<M1066>>>" ++ check (runes_of_ascii "packet A {
-    u8 x,    // c    u8 y,
+Eval vm_compute in ("<<<M345>>>" ++ check (runes_of_ascii "
+options
+{ } // " ++ [128512]%N ++ runes_of_ascii " emoji
+options { float // `tick` ""quote"" 'q'
+=	65535 }
+")).
+Eval vm_compute in ("<<<M42>>>" ++ check (runes_of_ascii "
+packet roots
+    { len leftPad `// not a comment`	,} packet packetx{}")).
+Eval vm_compute in ("<<<M942>>>" ++ check (runes_of_ascii "packet A {
+    B b `a
+
+b`,
+    B `a
+
+b`,
+    repeat B bs `a
+
+b`,
+}")).
+Eval vm_compute in ("<<<M204>>>" ++ check (runes_of_ascii "  options {// " ++ [128512]%N ++ runes_of_ascii " emoji
+Packet =// `tick` ""quote"" 'q'
+char[3 ]}")).
+Eval vm_compute in ("<<<M799>>>" ++ check (runes_of_ascii "packet A { Inner { match k as n { [1,22,007] : B, }, }, }")).
+Eval vm_compute in ("<<<M1513>>>" ++ check (runes_of_ascii "packet A {
+    u8 x `a
+            b
+          c`,
+}")).
+Eval vm_compute in ("<<<M1469>>>" ++ check (runes_of_ascii "
+packet
+
+    A { u8
+    x `d" ++ [8239]%N ++ runes_of_ascii "`
+, 	 // c" ++ [8239]%N ++ runes_of_ascii "
+    }
+
+")).
+Eval vm_compute in ("<<<M434>>>" ++ check (runes_of_ascii "packet uint8x
+{ match pack
+    as msg_type	{")).
+Eval vm_compute in ("<<<M1767>>>" ++ check (runes_of_ascii "packet MetaDataX {
+    i16 u128 `" ++ [233]%N ++ runes_of_ascii "`,//x
 }")).
 Eval vm_compute in ("<<<M200>>>" ++ check (runes_of_ascii "options {
 options1 =
@@ -1138,32 +1112,37 @@ options1 =
 }
 
 ")).
-Eval vm_compute in ("<<<M1807>>>" ++ check (runes_of_ascii "
-packet  A
-    {
+Eval vm_compute in ("<<<M1953>>>" ++ check (runes_of_ascii "
 
+  packet
+A
+
+{
 } 
-    // c" ++ [6158]%N ++ runes_of_ascii "
-")).
-Eval vm_compute in ("<<<M1053>>>" ++ check (runes_of_ascii "packet A {
- u8 x `d" ++ [65279]%N ++ runes_of_ascii "`, // c" ++ [65279]%N ++ runes_of_ascii "
-}")).
-Eval vm_compute in ("<<<M1551>>>" ++ check (runes_of_ascii "packet
-// c
-    	x
-{  }
-")).
-Eval vm_compute in ("<<<M153>>>" ++ check (runes_of_ascii "// trailing space 
 
+    // c" ++ [8202]%N ++ runes_of_ascii "
+ 
 ")).
-Eval vm_compute in ("<<<M22>>>" ++ check (runes_of_ascii "packet leftPad {
-}")).
-Eval vm_compute in ("<<<M997>>>" ++ check (runes_of_ascii "// c" ++ [5760]%N ++ runes_of_ascii "
+Eval vm_compute in ("<<<M1416>>>" ++ check (runes_of_ascii "// c" ++ [65279]%N ++ runes_of_ascii "
+		packet A
+    {
+    }
+")).
+Eval vm_compute in ("<<<M217>>>" ++ check (runes_of_ascii "root	packet falsey
+{
+}
+")).
+Eval vm_compute in ("<<<M295>>>" ++ check (runes_of_ascii "root  packet
+u128 { }")).
+Eval vm_compute in ("<<<M1042>>>" ++ check (runes_of_ascii "// c 	
 packet A {
 }")).
-Eval vm_compute in ("<<<M277>>>" ++ check (runes_of_ascii "MetaData i64_ { }")).
-Eval vm_compute in ("<<<M356>>>" ++ check (runes_of_ascii "packet uint8x {}")).
-Eval vm_compute in ("<<<M1495>>>" ++ check (runes_of_ascii "/// triple")).
-Eval vm_compute in ("<<<M157>>>" ++ check (runes_of_ascii "//
-
-")).
+Eval vm_compute in ("<<<M1011>>>" ++ check (runes_of_ascii "packet A {
+}
+// c" ++ [8232]%N)).
+Eval vm_compute in ("<<<M979>>>" ++ check (runes_of_ascii "packet A {
+}// c" ++ [12288]%N)).
+Eval vm_compute in ("<<<M1575>>>" ++ check (runes_of_ascii "MetaData tag {
+}")).
+Eval vm_compute in ("<<<M750>>>" ++ check (runes_of_ascii "uk%W,3^r>l")).
+Eval vm_compute in ("<<<M1496>>>" ++ check (runes_of_ascii "// " ++ [27880; 37322]%N)).
